@@ -36,10 +36,15 @@ def check(pid, tier, replay=None):
     res.assumptions = [
         'the library\'s allocation_failure_injector (test_heap.hpp) fails the k-th and every later allocation until reset',
         'OLC index with a single registered thread (deferred deallocations execute at once)',
-        'model: all allocations of an operation precede its first change of the tree (checked on the implementation by the enumeration)',
+        'model: all allocations of an operation precede its first change of the tree (checked on the implementation by the '
+        'enumeration; for unodb::db also by C08b: the order of allocation / accounting / publication extracted from the source)',
+        'C08b: effect tokens are classified by callee / member names (tools/fault2v.py); stores are recognised only at *node, '
+        '*node_in_parent, root and through the listed helpers on existing nodes; std:: callees are whitelisted by name',
     ]
-    proof_stage(res, [], ['Properties/Properties_C08.v'], pid)
+    # C08b: effect shapes of insert_internal / remove_internal regenerated from the source (tools/fault2v.py)
+    proof_stage(res, ['fault'], ['Properties/Properties_C08.v', 'Properties/Properties_C08b.v'], pid)
     res.coverage['trusted_base'] = TRUSTED_COMMON + [
+        'translator tools/fault2v.py over clang 14 JSON AST of the instantiated db<uint64_t, value_view> (C08b)',
         'extraction: ExtrOcamlBasic only; ocaml/art_run.ml (allocs mode)',
         'harness/fault_enum.cpp built without NDEBUG (library assertions and injector active) with the allocation hooks',
     ]
